@@ -26,6 +26,10 @@ RULES = {
              '0 / New only when the key was absent',
     'C06.c': 'codec agreement: key record 8·N·4·8, value record 8·N·4, in-place update 4·8, metadata 8·4 — writer = loader',
     'C06.d': 'deleted marker constant shared by writer and loader; ValueStatus and ConsensuStrategy encode/decode tables inverse',
+    'C06.g': 'offset bases are measured on the file generation being written: in the snapshot writer no rename of a data file '
+             '(.keys / .values) can follow the measurement of that file\'s size, neither inside one helper nor between helpers',
+    'C06.h': 'the loader advances its running key-record offset on every record it consumed: no path from a record read back to '
+             'the loop head skips the advance',
     'C06.e': 'the snapshot selects state != Ok, or everything when reclaiming',
     'C06.f': 'remove: New -> drop from memory, else tombstone(Deleted, old offsets); storage dispatch arms call their own strategy',
 }
@@ -33,15 +37,13 @@ RULES = {
 STATUS = 'nundb::bo::ValueStatus'
 
 
-def run(ck, m):
-    for k, v in RULES.items():
-        ck.rule(k, v)
+def writer_cells(m):
+    """(writer body, {state: arm entry block}, {(state, mode): region}) of the disk snapshot writer: its switch over the
+    entry state, each arm split on the reclaim parameter; raises AnchorError when not found"""
     P = m.prog
-    # ---- (a) ---------------------------------------------------------------------------
     wr = [b for b in P.user_bodies() if b.id.endswith('NodeDrive::storage_data_disk')]
     if len(wr) != 1:
-        ck.undecided('C06.a', 'writer', 'anchor', 'disk snapshot writer not found')
-        return
+        raise core.AnchorError('disk snapshot writer not found')
     wb = wr[0]
     ssw = None
     for bi in sorted(wb.reachable()):
@@ -52,21 +54,15 @@ def run(ck, m):
                     if ssw is None:
                         ssw = (bi, t)
     if ssw is None:
-        ck.undecided('C06.a', short(wb.id), 'state-switch', 'no switch over ValueStatus in the snapshot writer')
-        return
+        raise core.AnchorError('no switch over ValueStatus in the snapshot writer')
     sbi, st = ssw
     tm = {P.variant_of_discr(STATUS, v): tb for v, tb in st['targets']}
     for n in [v['name'] for v in P.adts[STATUS]['variants']]:
         tm.setdefault(n, st['else'])
-    # the reclaim flag is parameter 2
-    cells = 0
-
-    def effects_in(region):
-        calls = [callee(wb.term(x)).split('::')[-1] for x in sorted(region) if wb.term(x)['k'] == 'call' and not is_log(wb.term(x))]
-        return calls
+    out = {}
     for state, tb in sorted(tm.items()):
         arm = {x for x in wb.reachable() if wb.dominates(tb, x) and not any(wb.dominates(o, x) for s2, o in tm.items() if o != tb)}
-        # split on the reclaim parameter
+        # split on the reclaim parameter (parameter 2)
         split = None
         for x in sorted(arm):
             t = wb.term(x)
@@ -80,12 +76,39 @@ def run(ck, m):
                         tt, ft = ft, tt
                     split = (tt, ft)
                     break
-        modes = {}
         if split:
-            modes['reclaim'] = {x for x in arm if wb.dominates(split[0], x)}
-            modes['incremental'] = {x for x in arm if wb.dominates(split[1], x)}
+            out[(state, 'reclaim')] = {x for x in arm if wb.dominates(split[0], x)}
+            out[(state, 'incremental')] = {x for x in arm if wb.dominates(split[1], x)}
+            out[(state, 'both')] = {x for x in arm if not wb.dominates(split[0], x) and not wb.dominates(split[1], x)}
         else:
-            modes['reclaim'] = modes['incremental'] = arm
+            out[(state, 'reclaim')] = out[(state, 'incremental')] = arm
+            out[(state, 'both')] = set()
+    return wb, tm, out
+
+
+def run(ck, m):
+    _run(ck, m)
+    offsets_rules(ck, m)
+
+
+def _run(ck, m):
+    for k, v in RULES.items():
+        ck.rule(k, v)
+    P = m.prog
+    # ---- (a) ---------------------------------------------------------------------------
+    try:
+        wb, tm, regions = writer_cells(m)
+    except core.AnchorError as e:
+        ck.undecided('C06.a', 'writer', 'anchor', str(e))
+        return
+    cells = 0
+
+    def effects_in(region):
+        calls = [callee(wb.term(x)).split('::')[-1] for x in sorted(region) if wb.term(x)['k'] == 'call' and not is_log(wb.term(x))]
+        return calls
+    for state, tb in sorted(tm.items()):
+        modes = {'reclaim': regions[(state, 'reclaim')] | regions[(state, 'both')],
+                 'incremental': regions[(state, 'incremental')] | regions[(state, 'both')]}
         for mode, region in sorted(modes.items()):
             cells += 1
             calls = effects_in(region)
@@ -98,8 +121,8 @@ def run(ck, m):
             why = 'marks Ok with the offsets just written' if marks_ok else ('removes the entry from memory' if removes else
                                                                               ('unreachable by the selection (panics)' if panics else ''))
             if state == 'Deleted' and mode == 'incremental':
-                ok = in_place
-                why = 'writes the deleted marker in place through the entry\'s key offset (same file generation)'
+                ok = in_place and not removes
+                why = 'writes the deleted marker in place through the entry\'s key offset (same file generation) and keeps the tombstone'
             if state == 'Ok' and mode == 'incremental':
                 ok = panics or marks_ok
             ck.ob('C06.a', short(wb.id), 'cell:%s:%s' % (state, mode), ok,
@@ -327,3 +350,119 @@ def decoder_default(b):
                             if s['k'] == 'assign' and not s['l'].get('p') and s['l']['l'] == 0 and s['r']['k'] == 'agg':
                                 return s['r'].get('variant')
     return None
+
+
+
+def _transitive(P, body, pred, depth=0, seen=None):
+    """blocks of body whose call (transitively, depth 3) satisfies pred(callee_decl)"""
+    seen = seen if seen is not None else set()
+    out = []
+    for bi, t in body.calls():
+        if pred(callee_decl(t)):
+            out.append(bi)
+            continue
+        cb = P.bodies.get(callee(t))
+        if cb is not None and depth < 3 and cb.id not in seen:
+            seen.add(cb.id)
+            if _transitive(P, cb, pred, depth + 1, seen):
+                out.append(bi)
+    return out
+
+
+def _suffixes(P, body, depth=0, seen=None):
+    """file-name suffix constants (.keys, .values, ...) used in the format strings of a body"""
+    seen = seen if seen is not None else set()
+    out = set()
+    for bi, f in core.string_builders(body):
+        for pc in f.pieces:
+            if pc[0] == 'lit' and pc[1].startswith('.') and len(pc[1]) > 2:
+                out.add(pc[1].split('.')[1])
+    for bi, t in body.calls():
+        cb = P.bodies.get(callee(t))
+        if cb is not None and depth < 2 and cb.id not in seen and cb.id.startswith('nundb::storage::'):
+            seen.add(cb.id)
+            out |= _suffixes(P, cb, depth + 1, seen)
+    return out
+
+
+def offsets_rules(ck, m):
+    P = m.prog
+    try:
+        wb, tm, regions = writer_cells(m)
+    except core.AnchorError as e:
+        ck.undecided('C06.g', 'writer', 'anchor', str(e))
+        return
+    is_rename = lambda d: d == 'std::fs::rename'
+    is_measure = lambda d: d in ('std::fs::metadata', 'std::fs::File::metadata', 'std::io::Seek::stream_position', 'std::io::Seek::seek')
+    R = _transitive(P, wb, is_rename)
+    M = _transitive(P, wb, is_measure)
+    # only measurements whose result the writer keeps (offset bases): the call's destination is used later
+    kind = {}
+    for bi in set(R) | set(M):
+        cb = P.bodies.get(callee(wb.term(bi)))
+        kind[bi] = _suffixes(P, cb) & {'keys', 'values'} if cb is not None else set()
+    bad = []
+    for mbi in M:
+        for rbi in R:
+            if not (kind[mbi] & kind[rbi]):
+                continue
+            if mbi == rbi:
+                cb = P.bodies[callee(wb.term(mbi))]
+                ren = _transitive(P, cb, is_rename)
+                mea = _transitive(P, cb, is_measure)
+                # only a measurement the helper hands back (the offset base), not a mere existence test
+                from nl.locks import backward_slice
+                kept, _ = backward_slice(cb, {'c': {'l': 0}})
+                mea = [y for y in mea if y in kept]
+                for y in mea:
+                    after = cb.reach_from([y])
+                    for x in ren:
+                        if x in after and x != y:
+                            bad.append('%s measures the file (%s) and renames it afterwards (%s)' % (short(cb.id), cb.loc(y), cb.loc(x)))
+            elif rbi in wb.reach_from([mbi]):
+                bad.append('%s measures the .%s file at %s, then %s renames it at %s' % (
+                    short(callee(wb.term(mbi))), '/.'.join(sorted(kind[mbi] & kind[rbi])), wb.loc(mbi), short(callee(wb.term(rbi))), wb.loc(rbi)))
+    ck.ob('C06.g', short(wb.id), 'size-measured-after-rename', not bad,
+          'every file size used as an offset base is read after the reclaiming rename of that file' if not bad else
+          '%s: after a reclaiming snapshot the offsets kept in memory are those of the OLD file; the next incremental snapshot '
+          'updates records at wrong positions and the changes are lost on restart' % '; '.join(bad[:2]), '%s:%s' % (wb.file, wb.line))
+    ck.floor('C06.g', len(R), 2, 'helpers of the writer that rename a data file')
+    ck.floor('C06.g', len(M), 2, 'helpers of the writer that measure a data file')
+    # ---- (h) the loader's running offset ------------------------------------------------------
+    from props.C07 import natural_loops
+    ld = [b for b in P.user_bodies() if b.id.endswith('storage::disk::create_db_from_file_name')]
+    if len(ld) != 1:
+        ck.undecided('C06.h', 'loader', 'anchor', 'disk loader not found')
+        return
+    lb = ld[0]
+    adv = set()
+    for bi, bl in enumerate(lb.blocks):
+        for s in bl['s']:
+            if s['k'] == 'assign' and s['r']['k'] == 'agg' and s['r'].get('adt', '').endswith('bo::Value') and 'key_disk_addr' in s['r'].get('fields', []):
+                op = s['r']['ops'][s['r']['fields'].index('key_disk_addr')]
+                for r in origins(lb, op):
+                    if r[0] == 'arith':
+                        adv.add(r[1])
+    loops = natural_loops(lb)
+    okh = False
+    whyh = 'no running offset found in the loader (advance sites: %s)' % sorted(adv)
+    for h, body in loops:
+        us = [u for u in adv if u in body]
+        reads = [bi for bi in body if lb.term(bi)['k'] == 'call' and callee_decl(lb.term(bi)) == 'std::io::Read::read']
+        if not us or not reads:
+            continue
+        skipping = []
+        for r in reads:
+            if any(lb.dominates(u, r) for u in us):
+                continue
+            seen = lb.reach_from([r], stop=lambda x: x in us or x not in body)
+            # the head reached again without passing an advance?
+            if any(h in lb.succ(x) for x in seen if x in body and x not in us) and r != h:
+                skipping.append(lb.loc(r))
+            elif r == h and any(h in lb.succ(x) for x in seen if x in body and x not in us and x != h):
+                skipping.append(lb.loc(r))
+        okh = not skipping
+        whyh = ('every iteration that read a record advances the running key offset' if okh else
+                'a record read at %s can be followed by the next iteration without advancing the running key offset: every later key is '
+                'loaded with a key_disk_addr that is too small and the next in-place update overwrites another record' % skipping[:2])
+    ck.ob('C06.h', short(lb.id), 'offset-advanced-per-record', okh, whyh, '%s:%s' % (lb.file, lb.line))
